@@ -464,6 +464,26 @@ class Gen:
             opts = [o for o in opts if o in ("BS", "bs_expr")] * 3 + opts
         if not opts:
             return None
+        # reuse a pooled composite operation on (possibly other) operands of the right kinds
+        pooled = [k for k, v in self.ops.items() if v["t"].startswith("X.")]
+        if pooled and rng.random() < (0.6 if self.prof.get("reuse") else 0.3):
+            name = rng.choice(pooled)
+            kinds = specs.operand_kinds(self.ops[name])
+            by_kind = {"P": list(P), "F": list(F), "C": list(Cs)}
+            on = []
+            ok = True
+            for kd in kinds:
+                cand = [x for x in by_kind[kd] if x not in on]
+                if self.ops[name].get("d") and kd == "C":
+                    cand = [x for x in cand if pre.sub[x]["dims"] == self.ops[name]["d"]]
+                if not cand:
+                    ok = False
+                    break
+                on.append(rng.choice(cand))
+            if ok:
+                tot = sum((actions.support(pre, f) or 1) - 1 for f in on if world.kind(f) == "F")
+                if tot <= 4 and self._merged_dim(pre, on) <= 200:
+                    return {"do": "op", "entry": "ce", "ce": h, "op": name, "on": on}
         o = rng.choice(opts)
         th = round(rng.uniform(-2 * PI, 2 * PI), 6)
         if o in ("CX", "CZ", "SWAP"):
@@ -754,7 +774,7 @@ class Gen:
             if not dead:
                 return None
             n = rng.choice(dead)
-            how = rng.choice(["op", "kraus", "measure", "povm", "combine", "op2"])
+            how = rng.choice(["op", "kraus", "measure", "povm", "combine", "op2", "measure2", "measure2"])
             opts = ["state", "env"]
             base = n.split(".")[0]
             h = world.ce_of.get(base)
@@ -773,6 +793,15 @@ class Gen:
                 cand = [x for x in self._class_subs(world, pre, h, world.kind(n))]
                 if not cand:
                     return None
+                r["on"] = [n, rng.choice(cand)]
+            if how == "measure2":
+                if not h:
+                    return None
+                cand = [x for x in self._class_subs(world, pre, h) if x != n]
+                if not cand:
+                    return None
+                r["entry"] = "ce"
+                r["ce"] = h
                 r["on"] = [n, rng.choice(cand)]
             if how == "combine" and entry == "state":
                 r["entry"] = "env"
